@@ -53,9 +53,13 @@ def _task(args):
         if mode == "gen":
             rs = run_seed(seed, prop_id, tier, index)
             rng = random.Random(rs)
+            from . import engine as _engine
+            _engine.NEXT_REPO_DIR = _engine.REPO_DIRS[(rs >> 17) % len(_engine.REPO_DIRS)]
             res = prop.run_generated(rng, root, tier, index)
             res["run_seed"] = rs
         else:
+            from . import engine as _engine
+            _engine.NEXT_REPO_DIR = None
             res = prop.run_trace(payload, root)
         res["index"] = index
         res["error"] = None
